@@ -92,8 +92,8 @@ func jsonAssign(fr *frame, target iface, v value) iface {
 func copyDecoded(v value) value {
 	switch v := v.(type) {
 	case *omap:
-		if v == nil {
-			return v
+		if v == nil || v.lazy != nil {
+			return v // a lazy object is shared: its content is decided where it is looked at
 		}
 		m := &omap{keyType: v.keyType, idx: map[value]int{}}
 		for i := range v.keys {
@@ -469,4 +469,129 @@ func toGeneric(t types.Type, v value) iface {
 		}
 	}
 	panic(infraError{"toGeneric: unsupported type " + t.String()})
+}
+
+// ---- lazily initialised JSON values (DESIGN 5 C20).  A lazy object decides "key present?" when the
+// code looks a key up; the value found is undecided until the code type-asserts it, and each
+// assertion decides only "is of that type / is not".  Every shape the code can distinguish is
+// explored and nothing else.
+
+type lazyInfo struct {
+	path  string
+	depth int
+}
+
+type lazyVal struct {
+	path    string
+	depth   int
+	decided *iface // once an assertion succeeded
+	not     []types.Type
+}
+
+var tLazy = types.NewNamed(types.NewTypeName(token.NoPos, nil, "undecidedJSON", nil), types.NewStruct(nil, nil), nil)
+
+func (e *Engine) newLazyMap(path string, depth int) *omap {
+	return &omap{keyType: types.Typ[types.String], idx: map[value]int{}, lazy: &lazyInfo{path, depth}}
+}
+
+func (e *Engine) lazyDecide(m *omap, key string) (value, bool) {
+	li := m.lazy
+	child := li.path + "." + key
+	switch e.decide(make([]string, 3)) {
+	case 1:
+		e.api = append(e.api, APIEvent{Kind: "lazy", Name: child, Val: "absent"})
+		return nil, false
+	case 2:
+		e.api = append(e.api, APIEvent{Kind: "lazy", Name: child, Val: "null"})
+		m.insert(key, iface{})
+		return iface{}, true
+	}
+	e.api = append(e.api, APIEvent{Kind: "lazy", Name: child, Val: "present"})
+	v := iface{tLazy, &lazyVal{path: child, depth: li.depth}}
+	m.insert(key, v)
+	return v, true
+}
+
+// assertTo decides whether the undecided value is of type T (one of the types encoding/json
+// produces: string, float64, bool, map[string]interface{}, []interface{}).
+func (lv *lazyVal) assertTo(T types.Type) iface {
+	e := E
+	if lv.decided != nil {
+		return *lv.decided
+	}
+	for _, n := range lv.not {
+		if types.Identical(n, T) {
+			return iface{tLazy, lv}
+		}
+	}
+	kind := ""
+	switch u := T.Underlying().(type) {
+	case *types.Basic:
+		switch {
+		case u.Kind() == types.String:
+			kind = "string"
+		case u.Kind() == types.Float64:
+			kind = "number"
+		case u.Kind() == types.Bool:
+			kind = "bool"
+		}
+	case *types.Map:
+		kind = "object"
+	case *types.Slice:
+		kind = "array"
+	}
+	if kind == "" || !types.Identical(T, T.Underlying()) && kind != "object" && kind != "array" {
+		// encoding/json never produces this type inside interface{}
+		lv.not = append(lv.not, T)
+		return iface{tLazy, lv}
+	}
+	if kind == "object" && !types.Identical(T, tGenMap) || kind == "array" && !types.Identical(T, tGenSlice) {
+		lv.not = append(lv.not, T)
+		return iface{tLazy, lv}
+	}
+	if lv.depth >= e.lazyMaxDepth() && (kind == "object" || kind == "array") {
+		lv.not = append(lv.not, T) // depth bound: no deeper nesting
+		e.Stubs["lazy JSON depth bound reached (deeper nesting not explored)"]++
+		return iface{tLazy, lv}
+	}
+	if e.decide(make([]string, 2)) == 1 {
+		e.api = append(e.api, APIEvent{Kind: "lazy", Name: lv.path, Val: "not:" + kind})
+		lv.not = append(lv.not, T)
+		return iface{tLazy, lv}
+	}
+	var d iface
+	switch kind {
+	case "string":
+		d = iface{types.Typ[types.String], "x"}
+	case "number":
+		d = iface{types.Typ[types.Float64], float64(1)}
+	case "bool":
+		d = iface{types.Typ[types.Bool], true}
+	case "object":
+		d = iface{tGenMap, e.newLazyMap(lv.path, lv.depth+1)}
+	case "array":
+		if e.decide(make([]string, 2)) == 1 {
+			kind = "array0"
+			d = iface{tGenSlice, []value{}}
+		} else {
+			kind = "array1"
+			d = iface{tGenSlice, []value{iface{tLazy, &lazyVal{path: lv.path + "[0]", depth: lv.depth + 1}}}}
+		}
+	}
+	e.api = append(e.api, APIEvent{Kind: "lazy", Name: lv.path, Val: "is:" + kind})
+	lv.decided = &d
+	return d
+}
+
+func (e *Engine) lazyMaxDepth() int {
+	if d, ok := e.Params["LAZY_DEPTH"]; ok {
+		return d
+	}
+	return 4
+}
+
+func init() {
+	externals[gosymPkg+"LazyJSON"] = func(fr *frame, a []value) value {
+		return E.newLazyMap(a[0].(string), 0)
+	}
 }
